@@ -1075,8 +1075,38 @@ def run(ctx):
     used = set()
     guard_cache = {}
     tags = {}
+    # Re-spelled sites. The table is keyed by function, kind and a description of the operands, so
+    # a behaviour-preserving edit that names an intermediate value or moves a statement into a
+    # closure changes the key of a site that is already justified. A site without an exact entry
+    # is therefore matched to a *stale* entry (one whose exact key no longer occurs) of the same
+    # function (closures count as their parent), the same kind and the same operation, as long as
+    # there are at least as many stale entries as unmatched sites of that shape; the entry's reason
+    # and machine-checked guard carry over. More sites than stale entries of a shape = a new site.
+    def coarse(key):
+        fn_, kind_, desc_ = key.split("|")[0], key.split("|")[1], "|".join(key.split("|")[2:-1])
+        fn_ = re.sub(r"(::\{closure#\d+\})+$", "", fn_)
+        return fn_, kind_, desc_.split("(", 1)[0]
+    live_keys = {x.key for x in sites}
+    stale_by = {}
+    for k_ in sorted(entries):
+        if k_ not in live_keys and not k_.startswith(("NARROW|", "TOK|", "TRAIN|")):
+            stale_by.setdefault(coarse(k_), []).append(k_)
+    need_by = {}
+    undis = {}
     for s in sites:
-        r = discharge(crate, E, s)
+        if s.key not in entries:
+            r0 = discharge(crate, E, s)
+            undis[s.key] = r0
+            if r0 is None:
+                need_by.setdefault(coarse(s.key), []).append(s.key)
+    respelled = {}
+    for ck, ks in need_by.items():
+        cands = stale_by.get(ck, [])
+        if len(ks) <= len(cands):
+            for a_, b_ in zip(sorted(ks), cands):
+                respelled[a_] = b_
+    for s in sites:
+        r = undis[s.key] if s.key in undis else discharge(crate, E, s)
         chain = " <- ".join(x.split("::")[-1] for x in reach.get(s.fn, (s.fn,))[-3:])
         if r is not None:
             tags[r[0]] = tags.get(r[0], 0) + 1
@@ -1084,6 +1114,11 @@ def run(ctx):
                 s.desc, s.fn.split("::")[-1], r[0], r[1]), {"reach": chain})
             continue
         e = entries.get(s.key)
+        if e is None and s.key in respelled:
+            e = entries[respelled[s.key]]
+            used.add(respelled[s.key])
+            ctx.listed("PANIC", "re-spelled sites matched to their table entry",
+                       "%s  <-  %s" % (s.key, respelled[s.key]))
         if e is not None:
             used.add(s.key)
             ok = True
@@ -1275,6 +1310,33 @@ def run_tok(ctx):
         open_keys |= {k.split("|", 1)[1] for k in prop_keys if k.startswith("TOKPANIC|")}
     guard_cache = {}
     tags = {}
+    # re-spelled sites (see PANIC): a site no table rule matches is given to a *stale* rule - one
+    # that matches nothing on this tree - of the same function (closures count as their parent)
+    # and the same operation; at most two sites per stale rule
+    def _match(sk, fn_):
+        for p_ in patterns:
+            if p_["fn"] in fn_ and re.search(p_["rx"], sk):
+                return p_
+        return None
+    live = [id(_match(s_.key, s_.fn)) for s_, r_ in scanned if r_ is None]
+    stale = [p_ for p_ in patterns if id(p_) not in live]
+    absorbed = {}
+
+    def _respelled(s_):
+        parent = re.sub(r"(::\{closure#\d+\})+$", "", s_.fn)
+        head = s_.desc.split("(", 1)[0]
+        for p_ in stale:
+            base = p_["fn"].split("::{closure")[0]
+            if base not in parent:
+                continue
+            rx_head = re.match(r"[A-Za-z_:<>]*", re.sub(r"\\(.)", r"\1", p_["rx"])).group(0)
+            if rx_head and rx_head.split("::")[-1] not in head and head.split("::")[-1] not in rx_head:
+                continue
+            if absorbed.get(id(p_), 0) >= 2:
+                continue
+            absorbed[id(p_)] = absorbed.get(id(p_), 0) + 1
+            return p_
+        return None
     for s, r in scanned:
         chain = " <- ".join(x.split("::")[-1] for x in reach.get(s.fn, (s.fn,))[-3:])
         if r is not None:
@@ -1284,10 +1346,12 @@ def run_tok(ctx):
             continue
         e = None
         if s.key not in open_keys:       # recorded findings are never covered by a table rule
-            for p in patterns:
-                if p["fn"] in s.fn and re.search(p["rx"], s.key):
-                    e = p
-                    break
+            e = _match(s.key, s.fn)
+            if e is None:
+                e = _respelled(s)
+                if e is not None:
+                    ctx.listed("TOKPANIC", "re-spelled sites matched to a stale table rule",
+                               "%s  <-  %s / %s" % (s.key, e["fn"], e["rx"]))
         if e is not None:
             ok, gtxt = True, ""
             if e.get("guard"):
